@@ -422,7 +422,7 @@ def main(argv=None) -> int:
         "checker_cmd": f"./check {pid} --tier {tier}",
         "trusted_base": sorted(trusted | set(getattr(plan, "TRUSTED", []))),
         "functions_under_contract": [{"function": r["function"], "status": r["status"], "source": r.get("source_file", ""), "lines": r.get("source_lines"), "paths": r.get("paths"), "vcs": r.get("vcs"), "vcs_discharged": r.get("vcs_discharged"), "bounded": r.get("bounded"), "inlined_callees": r.get("inlined", []), "callee_contracts_used": r.get("used_contracts", [])} for r in reports],
-        "assumed_contracts": assumed,
+        "assumed_contracts": sorted(set(assumed) | {k for r in reports for k in r.get("used_contracts", []) if k in contracts and contracts[k].get("assumed")}),
         "bounded_symbolic_obligations": nb_ob,
         "bounded_symbolic_discharged": nb_dis,
         "bounded_symbolic_note": "obligations of functions verified with a stated bound on list lengths (contents fully symbolic); labelled bounded, not counted under obligations/discharged",
